@@ -515,6 +515,10 @@ pub fn c19(ctx: &Ctx) -> PropResult {
             }
         }
     }
+    // files larger than the usual buffer sizes (64 KiB, 128 KiB), with a multi-byte character across the boundary
+    for (doublings, lead) in [(16u32, ""), (16, "é"), (16, "xé"), (17, ""), (17, "中"), (15, "")] {
+        histories.push(format!("{pre}s <- \"0123456789abcdef\"\nREPEAT {} TIMES {{\ns <- s + s\n}}\ns <- \"{lead}\" + s + \"end\"\nDISPLAY(LENGTH(s))\nDISPLAY(FILE_CREATE(\"big\"))\nDISPLAY(FILE_OVERWRITE(\"big\", s))\nr <- FILE_READ(\"big\")\nDISPLAY(r == NULL)\nDISPLAY(LENGTH(r))\nDISPLAY(r == s)\nDISPLAY(FILE_APPEND(\"big\", \"tail\"))\nr2 <- FILE_READ(\"big\")\nDISPLAY(LENGTH(r2))\nDISPLAY(r2 == s + \"tail\")\nDISPLAY(FILE_REMOVE(\"big\"))\n", doublings - 4));
+    }
     let n = if ctx.quick() { 500 } else { 12_000 };
     for _ in 0..n {
         let len = 3 + rng.below(28);
@@ -579,7 +583,7 @@ pub fn c19(ctx: &Ctx) -> PropResult {
     let stats = collect(verdicts);
     PropResult {
         stats,
-        rule: "histories of the 13 FS procedures over path names {f1, f2, d, d/f, d/e, d/e/g, \"\", ., d/, ./f1, nope/x, f1/x} with contents of every value kind, each in a fresh temporary directory, run by the real binary: all histories of length 2 over 6 paths with and without a creation prefix (quick: a sample), random histories of length 3-30, every FS procedure on every argument exemplar; after each history the standard output (every result; DIRECTORY_READ as a multiset) and a full snapshot of the directory tree with file contents are compared with the file-system model; read / change keeping the length (4 ways, 2 spellings) / read again; a directory made, its ancestor removed (8 spellings), made again and used".into(),
+        rule: "histories of the 13 FS procedures over path names {f1, f2, d, d/f, d/e, d/e/g, \"\", ., d/, ./f1, nope/x, f1/x} with contents of every value kind, each in a fresh temporary directory, run by the real binary: all histories of length 2 over 6 paths with and without a creation prefix (quick: a sample), random histories of length 3-30, every FS procedure on every argument exemplar; after each history the standard output (every result; DIRECTORY_READ as a multiset) and a full snapshot of the directory tree with file contents are compared with the file-system model; read / change keeping the length (4 ways, 2 spellings) / read again; a directory made, its ancestor removed (8 spellings), made again and used; texts of 32 KiB, 64 KiB + and 128 KiB + written, read back and appended to".into(),
         exhaustive: !ctx.quick(),
         notes: vec![],
     }
@@ -782,6 +786,9 @@ pub fn c13(ctx: &Ctx) -> PropResult {
     for (lib, main) in crate::props6::module_duplicate_names() {
         trees.push((main, vec![("lib.ap".to_string(), lib)], "duplicate-names".to_string()));
     }
+    for (lib, main) in crate::props6::rebind_adjacent_calls() {
+        trees.push((main, vec![("lib.ap".to_string(), lib)], "rebind-adjacent-calls".to_string()));
+    }
     for (lib, main) in crate::props6::module_sees_importer() {
         trees.push((main, vec![("lib.ap".to_string(), lib)], "module-sees-importer".to_string()));
     }
@@ -961,7 +968,7 @@ pub fn c13(ctx: &Ctx) -> PropResult {
     stats.merge(collect(raw_verdicts));
     PropResult {
         stats,
-        rule: "library imports: for every module of the live registry the forms IMPORT MOD, IMPORT \"f\" FROM MOD (several names), IMPORT [f, g] FROM MOD, an unknown name, an unknown module; after each, every procedure name of the whole registry is probed without running it (a call with one argument too many: the label is the argument list iff the name is defined, the name iff it is not) and the importer's variable is displayed; user modules: generated files in the importer's directory or sub-directories with top-level output, a module variable, two exported procedures (one calling the other), a private procedure, optionally a runtime / syntax / lexical error or a nested import relative to the module's own directory; imported whole, by one name, by a list, by a private name, twice; probes for exported / private / module-variable / nested names and the importer's variables; in-process with the model given the same file tree; modules declaring one name several times (exported / private in every order) under every import form; module top-level code calling what only its importer imported or declared; ordered pairs and triples of imports of one module (whole / one name / another / a list, the second also in a loop); trees with symbolic links (program, module, directory reached through a link)".into(),
+        rule: "library imports: for every module of the live registry the forms IMPORT MOD, IMPORT \"f\" FROM MOD (several names), IMPORT [f, g] FROM MOD, an unknown name, an unknown module; after each, every procedure name of the whole registry is probed without running it (a call with one argument too many: the label is the argument list iff the name is defined, the name iff it is not) and the importer's variable is displayed; user modules: generated files in the importer's directory or sub-directories with top-level output, a module variable, two exported procedures (one calling the other), a private procedure, optionally a runtime / syntax / lexical error or a nested import relative to the module's own directory; imported whole, by one name, by a list, by a private name, twice; probes for exported / private / module-variable / nested names and the importer's variables; in-process with the model given the same file tree; modules declaring one name several times (exported / private in every order) under every import form; module top-level code calling what only its importer imported or declared; ordered pairs and triples of imports of one module (whole / one name / another / a list, the second also in a loop); trees with symbolic links (program, module, directory reached through a link); a procedure called last before and first after an IMPORT that installs another procedure of that name".into(),
         exhaustive: false,
         notes: vec!["exported procedures that call a procedure the importer did not import are the known finding (see known_findings.txt); the generator imports the whole module whenever an exported procedure calls another one".into()],
     }
@@ -1228,6 +1235,9 @@ pub fn c18(ctx: &Ctx) -> PropResult {
     ] {
         programs.push((tag.to_string(), src.to_string()));
     }
+    // FS procedures failing for every kind of reason (a directory that is not empty, a directory where a file is
+    // expected and the other way round, a path below a regular file): the answer is FALSE / NULL, nothing else is written
+    programs.push(("FS.failures".into(), "IMPORT MOD \"FS\"\nDISPLAY(\"A\")\nDISPLAY(DIRECTORY_CREATE(\"c18d\"))\nDISPLAY(FILE_CREATE(\"c18d/f\"))\nDISPLAY(DIRECTORY_REMOVE(\"c18d\"))\nDISPLAY(FILE_REMOVE(\"c18d\"))\nDISPLAY(DIRECTORY_CREATE(\"c18d\"))\nDISPLAY(FILE_CREATE(\"c18d/f\"))\nDISPLAY(DIRECTORY_CREATE(\"c18d/f/x\"))\nDISPLAY(DIRECTORY_CREATE_ALL(\"c18d/f/x/y\"))\nDISPLAY(DIRECTORY_REMOVE(\"c18d/f\"))\nDISPLAY(DIRECTORY_REMOVE_ALL(\"c18d/f\"))\nDISPLAY(FILE_READ(\"c18d\"))\nDISPLAY(FILE_APPEND(\"c18d\", 1))\nDISPLAY(FILE_OVERWRITE(\"c18d\", 1))\nDISPLAY(DIRECTORY_READ(\"c18d/f\"))\nDISPLAY(FILE_CREATE(\"c18d\"))\nDISPLAY(FILE_REMOVE(\"c18d/nope/x\"))\nDISPLAY(DIRECTORY_REMOVE(\"c18d/nope\"))\nDISPLAY(DIRECTORY_REMOVE_ALL(\"c18d\"))\nDISPLAY(DIRECTORY_REMOVE_ALL(\"c18d\"))\nDISPLAY(\"B\")\n".into()));
     // many diagnostics at once (limits, summaries and "... and N more" lines are written by the front end of the tool,
     // never by the lexer, the parser or the evaluator), input exhausted at each INPUT call
     for n in [1usize, 9, 10, 11, 12, 50, 300] {
@@ -1384,7 +1394,7 @@ pub fn c18(ctx: &Ctx) -> PropResult {
     }
     PropResult {
         stats: st,
-        rule: "every library procedure of the live registry (SLEEP excepted; FS inside a scratch working directory, INPUT with an empty standard input) called once with plausible arguments between two DISPLAY probes, every statement form, the three IMPORT forms, lexical / syntax / runtime errors, random programs; run in-process with the output channel captured by the hook sink while the process's file descriptors 1 and 2 are redirected to files: the sink must hold exactly the model's displayed output and the descriptors must stay empty (lexing and parsing alone included); static part: the census of output sites regenerated into Gen/Sites.lean and closed by `decide` (see theorems); programs with 1 .. 300 lexical / syntax errors; INPUT at end of input".into(),
+        rule: "every library procedure of the live registry (SLEEP excepted; FS inside a scratch working directory, INPUT with an empty standard input) called once with plausible arguments between two DISPLAY probes, every statement form, the three IMPORT forms, lexical / syntax / runtime errors, random programs; run in-process with the output channel captured by the hook sink while the process's file descriptors 1 and 2 are redirected to files: the sink must hold exactly the model's displayed output and the descriptors must stay empty (lexing and parsing alone included); static part: the census of output sites regenerated into Gen/Sites.lean and closed by `decide` (see theorems); programs with 1 .. 300 lexical / syntax errors; INPUT at end of input; every FS procedure failing for every kind of reason".into(),
         exhaustive: false,
         notes: vec![format!("{} output sites in /repo/src", output_sites().len()), "the library in its wasm configuration is type-checked by ./check on every run (cargo check --lib --no-default-features --features wasm), not executed".into()],
     }
